@@ -1,6 +1,8 @@
 import Driver.Proto
 import TonicModel.Model.WebClient
+import TonicModel.Model.WebCaller
 import TonicModel.Spec.GrpcWeb
+import TonicModel.Spec.Status
 namespace DriverC17
 open Proto WebServer WebClient
 open TMap (Pair str)
@@ -79,6 +81,10 @@ def isData : BodyEv → Bool
   | .data _ => true
   | _ => false
 
+def isDataOut : Out → Bool
+  | .data _ => true
+  | _ => false
+
 def firstFail (vs : List String) : String :=
   match vs.find? (· != "ok") with
   | some v => v
@@ -114,6 +120,11 @@ def countTrailers : List Out → Nat
   | .trailers _ :: r => countTrailers r + 1
   | _ :: r => countTrailers r
 
+/-- "every name with its full value": per name the same values in the same order, names in
+lower case, values byte for byte except the one optional space after the colon -/
+def trailersComplete (seen : List Pair) (block : List Pair) : Bool :=
+  Spec.GrpcWeb.sameTrailers seen (Spec.GrpcWeb.exactPairs block) && seen.length == block.length
+
 /-- spec verdict for the client: `evs` = inner response body, `obs` = frames the caller saw,
 `busy` = the run did not end, `ae` = polls of the inner body after its end. -/
 def clientVerdict (evs : List BodyEv) (obs : List Out) (busy : Bool) (ae : Nat) : String :=
@@ -131,37 +142,182 @@ def clientVerdict (evs : List BodyEv) (obs : List Out) (busy : Bool) (ae : Nat) 
         let msgs := items.filter (fun i => i.1 != 128)
         let trs := items.filter (fun i => i.1 == 128)
         let trailersLast := (items.dropWhile (fun i => i.1 != 128)).length ≤ 1
+        let msgBytes := msgs.flatMap (fun i => Spec.GrpcWeb.rawFrame i.1 i.2)
         if trs.length ≤ 1 && trailersLast then
-          let msgBytes := msgs.flatMap (fun i => Spec.GrpcWeb.rawFrame i.1 i.2)
           match trs with
           | [] =>
             verdict [("clean-end", obs.getLast? == some .eos),
                      ("message-bytes-identical", dataOf obs == msgBytes),
                      ("no-trailers-invented", trailersOf obs == [])]
           | (_, block) :: _ =>
-            match Spec.GrpcWeb.parseBlock block with
+            let wellFormed := match Spec.GrpcWeb.parseBlock block with
+              | some ps =>
+                if ps.all (fun p => Spec.GrpcWeb.fieldNameOk p.1 && Spec.GrpcWeb.fieldValueOk p.2)
+                then some ps else none
+              | none => none
+            match wellFormed with
             | some ps =>
-              if ps.all (fun p => Spec.GrpcWeb.fieldNameOk p.1 && Spec.GrpcWeb.fieldValueOk p.2) then
-                verdict [("clean-end", obs.getLast? == some .eos),
-                         ("message-bytes-identical", dataOf obs == msgBytes),
-                         ("trailers-after-data", match obs.dropLast.getLast? with
-                            | some (.trailers _) => true
-                            | _ => false),
-                         ("one-trailers-frame", countTrailers obs == 1),
-                         ("every-trailer-complete",
-                            Spec.GrpcWeb.sameTrailers (Spec.GrpcWeb.normPairs (trailersOf obs)) (Spec.GrpcWeb.normPairs ps)
-                            && (trailersOf obs).length == ps.length)]
-              else "ok"    -- trailer block with bytes no HTTP field may carry: error or lenient
-            | none => "ok" -- unterminated line / line without colon: error or lenient
-        else "ok"          -- frames after the trailers frame / several trailers frames
+              verdict [("clean-end", obs.getLast? == some .eos),
+                       ("message-bytes-identical", dataOf obs == msgBytes),
+                       ("trailers-after-data", match obs.dropLast.getLast? with
+                          | some (.trailers _) => true
+                          | _ => false),
+                       ("one-trailers-frame", countTrailers obs == 1),
+                       ("every-trailer-complete", trailersComplete (trailersOf obs) ps)]
+            | none =>
+              -- a malformed trailers block (a line without colon, bytes no field may carry, a last
+              -- line without CRLF): an error — or, if the stream does end cleanly, nothing of the
+              -- block may have been dropped: every line is listed with its full value
+              let complete := match Spec.GrpcWeb.readBlockLoose block with
+                | some raw => trailersComplete (trailersOf obs) raw && dataOf obs == msgBytes
+                | none => false
+              verdict [("malformed-trailers-error-or-every-line-listed",
+                        obs.getLast? == some .err || (obs.getLast? == some .eos && complete))]
+        else
+          -- frames after the trailers frame / several trailers frames: not a grpc-web body; an
+          -- error, or at least the message bytes as they are
+          verdict [("error-or-message-bytes-identical",
+                    obs.getLast? == some .err || dataOf obs == msgBytes)]
   firstFail [live, v]
+
+/-! ### the caller's view (`st` cases) -/
+
+def renderSt (st : Status.St) : List String :=
+  toString st.code.num :: hex st.message :: hex st.details :: HMap.render st.metadata
+
+def renderEnd : WebCaller.End → List String
+  | .ok (some t) => "ok" :: HMap.render t
+  | .ok none => ["ok", "none"]
+  | .status st => "err" :: renderSt st
+  | .layer => ["err", "layer"]
+  | .panic => ["panic"]
+
+def renderStreamed (s : WebCaller.Streamed) : List String :=
+  ["msgs", toString s.msgs.length] ++ s.msgs.map hex ++ ["end"] ++ renderEnd s.fin
+
+def renderUnary : WebCaller.Unary → List String
+  | .ok m md => "ok" :: hex m :: HMap.render md
+  | .status st => "err" :: renderSt st
+  | .layer => ["err", "layer"]
+  | .missing => ["err", "13", hex WebCaller.missingMessage, "x", "0"]
+  | .panic => ["panic"]
+
+/-- clauses for "the caller was given status tokens `toks` where the server's trailers were `t`
+and said a failing status" (as C04's reading verdict, against `Spec.Status.read`) -/
+def statusClauses (t : HMap) (r : Spec.Status.Reading) (toks : List String) : List (String × Bool) :=
+  match toks with
+  | c :: m :: d :: md =>
+    match nat? c, unhex m, unhex d with
+    | some c, some m, some d =>
+      match r.message, r.details with
+      | some rm, some rd =>
+        [("status-code-is-the-servers", c == r.code), ("status-message-is-the-servers", m == rm),
+         ("status-details-are-the-servers", d == rd),
+         ("other-trailers-are-metadata",
+            md == HMap.render (HMap.removeAll [Spec.Status.statusName, Spec.Status.messageName,
+                                               Spec.Status.detailsName] t))]
+      | _, _ => [("undecodable-field-gives-error-status", c != Spec.Status.OK)]
+    | _, _, _ => [("observed-parses", false)]
+  | _ => [("observed-parses", false)]
+
+/-- what the caller saw, split into messages and the end -/
+def splitStreamObs (obs : List String) : Option (List String × List String) :=
+  match obs with
+  | "msgs" :: n :: r =>
+    match nat? n with
+    | some n => if r.length < n + 1 then none
+                else if r.getD n "" == "end" then some (r.take n, r.drop (n + 1)) else none
+    | none => none
+  | _ => none
+
+/-- spec verdict for the caller's view.  `unary`: the call was `Grpc::unary`. -/
+def callerVerdict (unary : Bool) (evs : List BodyEv) (obs : List String) : String :=
+  if obs == ["panic"] || obs == ["hang"] || obs == ["runaway"] then "fail:never-panics-or-hangs"
+  else
+  let es := evs.filter notPending
+  -- the end as the caller saw it: `ok …` / `err …`, and the messages (unary: at most the one)
+  let seen : Option (List String × List String) :=
+    if unary then
+      match obs with
+      | "ok" :: m :: md => some ([m], "ok" :: md)
+      | "err" :: st => some ([], "err" :: st)
+      | _ => none
+    else splitStreamObs obs
+  match seen with
+  | none => "fail:unreadable-observation"
+  | some (msgs, fin) =>
+    let isErr := fin.head? == some "err"
+    match es.find? (fun e => !isData e) with
+    | some .err => verdict [("error-not-clean", isErr)]
+    | some _ => "ok"
+    | none =>
+      match Spec.GrpcWeb.frameStructure (flat es) with
+      | none => verdict [("cut-off-or-malformed-is-error", isErr)]
+      | some items =>
+        let ms := items.filter (fun i => i.1 != 128)
+        let trs := items.filter (fun i => i.1 == 128)
+        let trailersLast := (items.dropWhile (fun i => i.1 != 128)).length ≤ 1
+        if !(trs.length ≤ 1 && trailersLast && ms.all (fun i => i.1 == 0)) then "ok"
+        else
+          let payloads := ms.map (fun i => hex i.2)
+          let msgClause : (String × Bool) :=
+            if unary then ("message-is-the-first-sent", isErr || msgs == payloads.take 1)
+            else ("messages-identical", if isErr then msgs.length ≤ payloads.length && msgs == payloads.take msgs.length
+                                        else msgs == payloads)
+          match trs with
+          | [] => verdict [msgClause]   -- no trailers frame: no status was sent
+          | (_, block) :: _ =>
+            let wellFormed := match Spec.GrpcWeb.parseBlock block with
+              | some ps =>
+                if ps.all (fun p => Spec.GrpcWeb.fieldNameOk p.1 && Spec.GrpcWeb.fieldValueOk p.2)
+                then some ps else none
+              | none => none
+            match wellFormed with
+            | some ps =>
+              let t : HMap := Spec.GrpcWeb.exactPairs ps
+              match Spec.Status.read t with
+              | none => verdict [msgClause]   -- trailers without grpc-status: nothing to see
+              | some r =>
+                if r.code == Spec.Status.OK && r.message.isSome && r.details.isSome then
+                  if unary && payloads.isEmpty then
+                    verdict [("unary-without-message-is-an-error", isErr)]
+                  else
+                    verdict [msgClause, ("ok-status-is-success", !isErr),
+                             ("trailers-are-the-servers", fin.drop 1 == HMap.render t)]
+                else
+                  verdict ([msgClause, ("failing-status-reaches-the-caller", isErr)] ++
+                           statusClauses t r (fin.drop 1))
+            | none =>
+              -- malformed block: whatever can be read of it must not turn a failure into success
+              match Spec.GrpcWeb.readBlockLoose block with
+              | some raw =>
+                match Spec.Status.read (Spec.GrpcWeb.exactPairs raw) with
+                | some r =>
+                  if r.code != Spec.Status.OK then verdict [("failing-status-line-not-hidden", isErr)] else "ok"
+                | none => "ok"
+              | none => "ok"
 
 def handle (case obs : List String) : String × String :=
   match case with
   | "cl" :: evToks =>
     match parseEvs evToks with
     | some evs =>
-      let model := join (renderOuts (canonOuts (Fixed.observe evs)) ++ ["ae", "0"])
+      let m := canonOuts (Fixed.observe evs)
+      let exactLine := join (renderOuts m ++ ["ae", "0"])
+      -- `C17_lossless` promises the message bytes, not where the data frames are cut: model and
+      -- observation are compared as (concatenated data, trailers frames, terminal frame, `ae`);
+      -- a run that ends in an error only as "ends in an error".  When they agree in that form
+      -- the driver answers with the observed tokens.  The verdict sees the exact observation.
+      let model := match splitAe obs with
+        | some (frames, 0) =>
+          match parseOuts frames with
+          | some o =>
+            let same :=
+              if m.getLast? == some .err then o.getLast? == some .err
+              else dataOf m == dataOf o && m.filter (!isDataOut ·) == o.filter (!isDataOut ·)
+            if same then join obs else exactLine
+          | none => exactLine
+        | _ => exactLine
       let v := match splitAe obs with
         | some (frames, ae) =>
           let busy := frames.getLast? == some "busy" || frames.getLast? == some "hang" || frames.getLast? == some "panic"
@@ -171,6 +327,14 @@ def handle (case obs : List String) : String × String :=
         | none => "fail:unreadable-observation"
       (model, v)
     | none => bad
+  | "st" :: k :: evToks =>
+    match parseEvs evToks, k == "u" || k == "s" with
+    | some evs, true =>
+      let outs := Fixed.observe evs
+      let model := if k == "u" then join (renderUnary (WebCaller.unary outs))
+                   else join (renderStreamed (WebCaller.streaming outs))
+      (model, callerVerdict (k == "u") evs obs)
+    | _, _ => bad
   | "asis" :: evToks =>
     match parseEvs evToks with
     | some evs =>
